@@ -203,7 +203,7 @@ def _ax_dd(t1, t2, last):
     return out
 
 
-def _ax_mm(t1, t2):
+def _ax_mods(t1, t2):
     """x mod 2^a and x mod 2^b: 0 <= a <= b and 2^b | x  ->  2^a | x;  and  x mod 2^a == (x mod 2^b) mod 2^a  is implied"""
     out = []
     for (u, v) in ((t1, t2), (t2, t1)):
@@ -230,6 +230,8 @@ def _ax_mul(t):
 
 
 def _mul_parts(t):
+    if not (z3.is_app(t) and t.decl().kind() == z3.Z3_OP_MUL and t.num_args() == 2):
+        return None
     for x, pk in ((t.arg(0), t.arg(1)), (t.arg(1), t.arg(0))):
         if is_app_of(pk, pow2):
             return x, pk.arg(0)
@@ -392,7 +394,7 @@ def instantiate(formulas, rounds: int = 2, heavy: bool = True, quant=None):
                 (i, t1), (j, t2) = mods[x], mods[y]
                 if t1.arg(0).get_id() != t2.arg(0).get_id():
                     continue
-                emit(('mm', i, j), lambda t1=t1, t2=t2: _ax_mm(t1, t2))
+                emit(('mods', i, j), lambda t1=t1, t2=t2: _ax_mods(t1, t2))
         if not last:
             for f_ in work + axioms:
                 for i, x in _TZS.get(f_.get_id(), {}).items():
@@ -528,3 +530,52 @@ def selftest_schemas(limit: int = 40) -> dict:
             if (x == P(T)) != (T == BL(x) - 1) or (x == P(BL(x) - 1)) != (T == BL(x) - 1):
                 bad['TZ.pow2'] = (x,)
     return {'cases': cnt, 'bad': bad}
+
+
+
+def selftest_instances(n: int = 120, seed: int = 1) -> dict:
+    """
+    Soundness fuzz of the *generated* instances (not of a hand transcription): for random concrete values of
+    x, y, a, b build a set of template terms (x%2^a, x/2^a, x*2^a, bl, tz, pairs of each), run `instantiate`
+    with every optional schema switched on, pin pow2/bl/tz to their standard meaning (bounded_defs) and the
+    variables to the chosen values: the conjunction must be satisfiable.  An unsatisfiable case means some
+    emitted axiom instance is false (this is how a name clash between two schema generators was caught).
+    """
+    import random
+    global EXTRA
+    rnd = random.Random(seed)
+    x, y, a, b = z3.Ints('t!x t!y t!a t!b')
+    bad = []
+    old_extra = EXTRA
+    EXTRA = {'MM'}
+    try:
+        for i in range(n):
+            vx, vy = rnd.choice([0, 1, 2, 3, 4, 5, 7, 8, 12, 16, 31, 33, 64, 100]), rnd.choice([0, 1, 2, 3, 6, 8, 15, 16, 40])
+            va, vb = rnd.randint(0, 6), rnd.randint(0, 6)
+            terms = [x % pow2(a), x % pow2(b), x / pow2(a), x / pow2(b), x * pow2(a), y * pow2(b), bl(x), bl(y), bl(x + 1),
+                     bl(x / pow2(a)), bl(x % pow2(b)), bl(x * pow2(a)), (x * pow2(a)) % pow2(b), (x * pow2(b)) / pow2(a),
+                     pow2(a), pow2(b), pow2(a + b)]
+            if 'tz' in globals():
+                terms.append(globals()['tz'](x))
+            fs = [t >= 0 for t in terms] + [x == vx, y == vy, a == va, b == vb]
+            for quant in (False,):
+                ax, names = instantiate(fs, quant=quant)
+                sol = z3.Solver()
+                sol.set('timeout', 20000)
+                for f in fs + ax + bounded_defs(fs + ax, 14):
+                    sol.add(f)
+                r = sol.check()
+                if r != z3.sat:
+                    # find a culprit
+                    culprit = None
+                    for nm, one in zip(names, ax):
+                        s2 = z3.Solver()
+                        for f in fs + [one] + bounded_defs(fs + [one], 14):
+                            s2.add(f)
+                        if s2.check() == z3.unsat:
+                            culprit = nm
+                            break
+                    bad.append({'x': vx, 'y': vy, 'a': va, 'b': vb, 'result': str(r), 'culprit': culprit})
+    finally:
+        EXTRA = old_extra
+    return {'cases': n, 'bad': bad[:5]}
